@@ -8,46 +8,56 @@ import (
 	"github.com/pdfcpu/pdfcpu/pkg/api"
 	"github.com/pdfcpu/pdfcpu/pkg/pdfcpu/model"
 	"github.com/pdfcpu/pdfcpu/pkg/pdfcpu/types"
-	"verif/harness/lib/rawpdf"
 )
 
-func get(f string, c *model.Configuration) string {
+func scan(f string, c *model.Configuration) {
 	fh, _ := os.Open(f)
 	defer fh.Close()
 	ctx, err := api.ReadAndValidate(fh, c)
 	if err != nil {
-		return "ERR " + err.Error()
+		fmt.Println("ERR", err)
+		return
 	}
-	d, _ := ctx.DereferenceDict(*ctx.Info)
-	o := d["Title"]
-	if sl, ok := o.(types.StringLiteral); ok {
-		return sl.Value()
+	okc, bad := 0, []string{}
+	for n := 1; n < *ctx.XRefTable.Size; n++ {
+		e, ok := ctx.XRefTable.Table[n]
+		if !ok || e.Object == nil {
+			continue
+		}
+		d, isd := e.Object.(types.Dict)
+		if !isd {
+			continue
+		}
+		if _, has := d["AAPL:AKAnnotationObject"]; !has {
+			if len(d) == 0 {
+				bad = append(bad, fmt.Sprintf("%d:emptydict(compressed=%v)", n, e.Compressed))
+			}
+			continue
+		}
+		s := d["AAPL:AKAnnotationObject"].(types.StringLiteral).Value()
+		if strings.HasPrefix(s, "YnBsaXN0") {
+			okc++
+		} else {
+			bad = append(bad, fmt.Sprintf("%d:len%d(compressed=%v)", n, len(s), e.Compressed))
+		}
 	}
-	return fmt.Sprintf("%T %v", o, o)
+	fmt.Println(f, "ok", okc, "bad", bad)
 }
 
 func main() {
 	api.DisableConfigDir()
+	src := os.Args[1]
 	d := "/tmp/sec-probe/"
-	for _, n := range []int{100, 1000, 4000, 8000, 12000, 16000, 20000} {
-		s := strings.Repeat("abcdefghij", n/10)
-		doc := rawpdf.MarkerDoc([]rawpdf.PageSpec{{Marker: "m", Rotate: -1}}, rawpdf.MarkerOpts{InfoDict: "/Title (" + s + ")"})
-		os.WriteFile(d+"l.pdf", doc.Bytes(), 0o644)
-		for _, alg := range []string{"aes", "rc4"} {
-			c := model.NewAESConfiguration("u", "o", 256)
-			if alg == "rc4" {
-				c = model.NewRC4Configuration("u", "o", 128)
-			}
-			os.Remove(d + "le.pdf")
-			err := api.EncryptFile(d+"l.pdf", d+"le.pdf", c)
-			c2 := model.NewDefaultConfiguration()
-			c2.UserPW = "u"
-			got := get(d+"le.pdf", c2)
-			ok := got == s
-			if len(got) > 60 {
-				got = got[:60]
-			}
-			fmt.Printf("n=%d %s enc=%v same=%v got=%q\n", n, alg, err, ok, got)
+	scan(src, model.NewDefaultConfiguration())
+	for _, alg := range []string{"aes", "rc4"} {
+		c := model.NewAESConfiguration("u", "o", 256)
+		if alg == "rc4" {
+			c = model.NewRC4Configuration("u", "o", 128)
 		}
+		os.Remove(d + "e.pdf")
+		fmt.Println("enc", api.EncryptFile(src, d+"e.pdf", c))
+		c2 := model.NewDefaultConfiguration()
+		c2.UserPW = "u"
+		scan(d+"e.pdf", c2)
 	}
 }
